@@ -1,6 +1,12 @@
 """Per-property configuration: which Verus units and Kani harnesses carry its obligations."""
 
 KANI_BOUNDS = {
+    "kb_vec_target_ops": "vector length <= 3, spare capacity <= 4, operand <= 3, one operation (plus follow-up writes into the reservation)",
+    "kb_decode_string_any_bytes": "every byte string of length <= 5",
+    "kb_decode_vec_u8_any_bytes": "every byte string of length <= 5",
+    "kb_skip_tagged_any_bytes": "every byte string of length <= 6",
+    "kb_vec_u16_roundtrip": "sequences of <= 2 u16 elements",
+    "kb_dict_roundtrip": "BTreeMap<u8,u8> with <= 2 entries; 5-byte duplicate-key payload",
     "kb_slice_target_ops": "capacity <= 6, operand length <= 4, one operation from an arbitrary reachable state",
     "kb_slice_source_ops": "buffer length <= 6, request <= 4, one operation from an arbitrary reachable state",
 }
@@ -26,7 +32,7 @@ PROPS = {
     "C10": dict(
         units=["codec_wire", "wire_lemmas"],
         kani_quick=K_VARINT + K_FIXED,
-        kani_thorough=["kb_dict_roundtrip", "kb_string_roundtrip"],
+        kani_thorough=["kb_dict_roundtrip", "kb_vec_u16_roundtrip"],
         claim="Every EncodeInto / DecodeFrom implementation of slice-codec for bool, fixed-width numbers, floats, "
               "variable-width integers, sizes, strings and sequences is under contract against the wire-format spec "
               "(specs/wire.rs, written from the property): encoders append exactly enc(value); decoders accept only "
@@ -40,7 +46,7 @@ PROPS = {
         units=["codec_wire", "codec_buffer", "codec_error"],
         kani_quick=["k_decode_varuint_u32_any_bytes", "k_decode_varuint_u64_any_bytes", "k_decode_varuint_usize_any_bytes",
                     "k_decode_varuint_i32_any_bytes", "k_decode_varint_i32_any_bytes", "k_decode_varint_i64_any_bytes", "k_bool_contract"],
-        kani_thorough=["kb_decode_string_any_bytes", "kb_decode_vec_u8_any_bytes", "kb_decode_hashmap_any_bytes", "kb_skip_tagged_any_bytes"],
+        kani_thorough=["kb_decode_string_any_bytes", "kb_decode_vec_u8_any_bytes", "kb_skip_tagged_any_bytes", "kb_dict_roundtrip"],
         claim="Every decode function is verified with no precondition other than the source's representation invariant, "
               "so for ALL byte strings: data unchanged, cursor moves forward inside the buffer (no over-read: every "
               "indexing/copy obligation proved), no reachable panic, strict bool/UTF-8/range/duplicate-key rejection, "
@@ -51,7 +57,7 @@ PROPS = {
     "C12": dict(
         units=["codec_buffer"],
         kani_quick=[],
-        kani_thorough=["kb_slice_target_ops", "kb_slice_source_ops"],
+        kani_thorough=["kb_slice_target_ops", "kb_slice_source_ops", "kb_vec_target_ops"],
         claim="Every function of slice-codec/src/buffer/slice.rs (fixed-slice output target, slice input source) is "
               "verified by Verus against an append-only-log / whole-buffer-frame contract, for unbounded capacity "
               "and operand length; the trait-level contracts of OutputTarget/InputSource are what generic callers see.",
